@@ -7,6 +7,9 @@ import AgpTpf.Properties.C12
 namespace AgpTpf.C12
 open AgpTpf
 
+/-- the model's `findOverlaps` IS the source's `find_overlaps`, on the scaffold the name lookup returns and the index
+    `add_scaffold` built — same result, same exception, for every scaffold (empty ones included), every bait and every
+    `fuel > len(rows) + 1`. -/
 theorem find_overlaps_is_source (sc : Scaffold) (bait : Fragment) (fuel : Nat) (hfuel : sc.rows.length + 1 < fuel)
     (byName : Str → R Scaffold) (hby : byName bait.name = .ok sc)
     (index : Str → List Int) (hidx : index bait.name = buildIndex sc.rows) :
@@ -88,5 +91,66 @@ theorem find_overlaps_is_source (sc : Scaffold) (bait : Fragment) (fuel : Nat) (
       case hb => intro j; rfl
       rw [hj']
       simp only [Except.map]
-      trace_state
-      sorry
+      by_cases hij : (i' : Int) ≤ j'
+      · rw [ImpLookup.slice_eq_pySlice sc.rows i' (j' + 1) (by omega) (by omega)]
+        have e : ((i' : Int) - 1).toNat = i' - 1 := by omega
+        by_cases hi0 : i' = 0
+        · have hz : (i' : Int) = 0 := by omega
+          simp only [hij, decide_true, Bool.not_true, Bool.false_eq_true, if_false, not_true_eq_false]
+          simp only [hz, decide_true, if_true]
+          cases pyGet idx j' <;> rfl
+        · have hi0' : ¬ ((i' : Int) = 0) := by omega
+          simp [hij, hi0, e, ImpLookup.pyGet_pred idx i' hi0 (by omega)]
+          cases pyGet idx j' <;> rfl
+      · simp [hij]
+        rfl
+
+/-- the demo scaffold of `Properties/C12.lean` as the assembly sees it: looked up by name, with the index `add_scaffold` built -/
+def demoByName : Str → R Scaffold := fun n => if n = "s".toList then .ok { name := "s".toList, rows := demo } else .error .key
+def demoIndex : Str → List Int := fun n => if n = "s".toList then buildIndex demo else []
+
+-- hypotheses are satisfiable
+example : demo.length + 1 < 10 ∧ demoByName (q 17 40).name = .ok { name := "s".toList, rows := demo } ∧
+    demoIndex (q 17 40).name = buildIndex demo := ⟨by decide, rfl, rfl⟩
+-- the translated source, evaluated independently of the theorem
+example : Gen.Imp.IndexedAssembly_find_overlaps 10 (q 17 40) demoByName demoIndex =
+    .ok (some { bait := q 17 40, start := 21, stop := 26, rows := [fr "B" 1, gp 0, fr "C" 5],
+                name := "matches".toList }) := by decide +kernel
+example : Gen.Imp.IndexedAssembly_find_overlaps 10 (q 15 21) demoByName demoIndex = findOverlaps demo (q 15 21) := by
+  decide +kernel
+example : Gen.Imp.IndexedAssembly_find_overlaps 10 (q 16 20) demoByName demoIndex = .ok none := by decide +kernel
+-- an empty scaffold raises ValueError on both sides (inside the theorem: no non-emptiness hypothesis)
+example : Gen.Imp.IndexedAssembly_find_overlaps 3 (q 1 2) (fun _ => .ok { name := "s".toList, rows := [] }) (fun _ => []) =
+    .error .value := by decide +kernel
+-- with too little fuel the translated loop reports `Err.other` (why the theorem asks for `len(rows) + 1 < fuel`)
+example : Gen.Imp.IndexedAssembly_find_overlaps 2 (q 17 40) demoByName demoIndex = .error .other := by decide +kernel
+
+/-- … and a failing name lookup fails the same way -/
+theorem find_overlaps_unknown_scaffold (bait : Fragment) (fuel : Nat) (byName : Str → R Scaffold) (e : Err)
+    (hby : byName bait.name = .error e) (index : Str → List Int) :
+    Gen.Imp.IndexedAssembly_find_overlaps fuel bait byName index = .error e := by
+  unfold Gen.Imp.IndexedAssembly_find_overlaps
+  rw [hby]
+  rfl
+
+example : demoByName ({ q 1 6 with name := "nosuch".toList }).name = .error .key := rfl
+example : Gen.Imp.IndexedAssembly_find_overlaps 10 { q 1 6 with name := "nosuch".toList } demoByName demoIndex =
+    .error .key := by decide +kernel
+
+/-- the SOURCE's lookup equals the brute-force scan of the scaffold (`find_overlaps_spec_strong` carried over to the
+    translated source): for every non-empty scaffold with non-negative row lengths and every bait it does not raise and
+    returns exactly `bruteForce`. -/
+theorem source_find_overlaps_is_brute_force (sc : Scaffold) (bait : Fragment) (fuel : Nat)
+    (hfuel : sc.rows.length + 1 < fuel)
+    (byName : Str → R Scaffold) (hby : byName bait.name = .ok sc)
+    (index : Str → List Int) (hidx : index bait.name = buildIndex sc.rows)
+    (hne : sc.rows ≠ []) (hlen : ∀ r ∈ sc.rows, 0 ≤ r.length) :
+    Gen.Imp.IndexedAssembly_find_overlaps fuel bait byName index = .ok (bruteForce sc.rows bait) := by
+  rw [find_overlaps_is_source sc bait fuel hfuel byName hby index hidx]
+  exact find_overlaps_spec_strong sc.rows bait hne hlen
+
+example : demo ≠ [] ∧ (∀ r ∈ demo, 0 ≤ r.length) := by decide
+example : Gen.Imp.IndexedAssembly_find_overlaps 10 (q 1 6) demoByName demoIndex = .ok (bruteForce demo (q 1 6)) := by
+  decide +kernel
+
+end AgpTpf.C12
